@@ -179,6 +179,7 @@ def stream_cases(draw):
     case['cuts'] = sorted(c for c in cuts if 0 < c < total)
     case['ch_joined'] = draw(st.booleans())
     case['tls'] = draw(st.sampled_from([False, False, True]))
+    case['local_tls'] = draw(st.booleans())
     return case
 
 
@@ -293,6 +294,8 @@ def pinned_cases():
                                                  'sess_init': dict(_default_init(), ext=many), 'msgs': [{'t': 'KEEPALIVE'}]}
     yield 'segment-with-101-extension-items', {'kind': 'stream', 'active': True, 'queue_own': False, 'cuts': [],
                                                'sess_init': None, 'msgs': [{'t': 'XFER_SEGMENT', 'flags': 3, 'id': 5, 'dlen': 4, 'dseed': 1, 'ext': many}, {'t': 'KEEPALIVE'}]}
+    yield 'tls-offered-locally-only-header-and-sess-init-in-one-read', {'kind': 'stream', 'active': True, 'sess_init': None, 'queue_own': False,
+                                                                        'ch_joined': True, 'local_tls': True, 'msgs': [{'t': 'KEEPALIVE'}], 'cuts': []}
     yield 'contact-split', {'kind': 'stream', 'active': False, 'sess_init': None, 'queue_own': False,
                             'msgs': [{'t': 'KEEPALIVE'}, {'t': 'KEEPALIVE'}], 'cuts': [3, 6, 20]}
 
@@ -313,6 +316,11 @@ def run_stream(case, out):
         # under (scripted) TLS the octets reach the endpoint in records: one record per delivered chunk, at most 16384
         # octets, read through a socket that keeps what was not asked for (see FakeTLSSocket)
         cfg = tw.make_config('dtn://real/', tls_enable=True, tls_script={'handshake': 'ok', 'peer_cert_der': None, 'records': True})
+    elif case.get('local_tls'):
+        # the endpoint offers TLS, the peer does not: the session goes on in the clear, and what follows the peer's
+        # contact header in the same read is the next message like anywhere else
+        cfg = tw.make_config('dtn://real/', tls_enable=True, tls_script={'handshake': 'ok', 'peer_cert_der': None})
+        out.label('tls-offered-locally-only')
     else:
         cfg = tw.make_config('dtn://real/')
     world = tw.World(cfg, scripted=True, real_is_passive=not active)
@@ -371,6 +379,10 @@ def run_stream(case, out):
             return
         n_ok += 1
     closed_early = end.sock.closed
+    if closed_early and not tls and len(got) == 1 and len(want) >= 2 and any(cum >= want[1]['end'] for _r, cum, _b in reads):
+        # (no TLS handshake follows this contact header: nothing entitles the endpoint to drop what comes behind it)
+        out.fail('closed-after-contact-header', 'the endpoint closed after the peer\'s (valid) contact header without acting on the complete '
+                 '%s behind it (cuts %s, TLS offered locally %s, by the peer no)' % (want[1]['t'], cuts[:8], bool(case.get('local_tls'))))
     if len(got) > len(want):
         out.fail('phantom-message', 'receiver acted on %d messages, stream holds %d' % (len(got), len(want)))
     elif len(got) < len(want) and not closed_early:
